@@ -36,12 +36,17 @@ Definition inv (limit : nat) (it : item) (pend : list byte) : Prop :=
              (length pend < limit)%nat /\ nonul pend.
 
 Definition small (limit : nat) (cs : list (list byte)) : Prop := Forall (fun c => (length c <= limit - 1)%nat) cs.
+(* chunks flushed by an append are full: exactly Limit-1 bytes *)
+Definition full (limit : nat) (cs : list (list byte)) : Prop := Forall (fun c => length c = (limit - 1)%nat) cs.
+
+Lemma full_small : forall limit cs, full limit cs -> small limit cs.
+Proof. intros limit cs H. unfold full, small in *. rewrite Forall_forall in *. intros c Hc. rewrite (H c Hc). apply le_n. Qed.
 
 Lemma append_char_inv : forall limit it pend b,
   (2 <= limit)%nat -> inv limit it pend -> b <> 0 ->
   exists it' ev pend',
     append_char limit it b = Ok (it', ev) /\ inv limit it' pend' /\ it_done it' = it_done it /\
-    concat (chunks_of ev) ++ pend' = pend ++ [b] /\ small limit (chunks_of ev).
+    concat (chunks_of ev) ++ pend' = pend ++ [b] /\ full limit (chunks_of ev).
 Proof.
   intros limit it pend b Hl (tl & Hbuf & Hlen & Hoff & Hlt & Hnn) Hb.
   unfold append_char. rewrite Hoff.
@@ -94,7 +99,7 @@ Lemma append_bytes_inv : forall limit bs it pend,
   (2 <= limit)%nat -> inv limit it pend -> nonul bs ->
   exists it' ev pend',
     (forall k, append_bytes limit it bs k = lemit ev (k it')) /\ inv limit it' pend' /\ it_done it' = it_done it /\
-    concat (chunks_of ev) ++ pend' = pend ++ bs /\ small limit (chunks_of ev).
+    concat (chunks_of ev) ++ pend' = pend ++ bs /\ full limit (chunks_of ev).
 Proof.
   intros limit bs. induction bs as [|b bs IH]; intros it pend Hl Hinv Hnn.
   - exists it, [], pend. split; [intros k; cbn [append_bytes]; rewrite lemit_nil; reflexivity|].
@@ -115,9 +120,10 @@ Definition appends_ops (appends : list (list byte)) : list lop :=
 
 Lemma run_ops_appends : forall limit appends it pend,
   (2 <= limit)%nat -> inv limit it pend -> Forall nonul appends ->
-  exists it' ev,
+  exists it' ev cs last,
     run_ops limit it (appends_ops appends) = (ev, it', Ok tt) /\ it_done it' = true /\
-    concat (chunks_of ev) = pend ++ concat appends /\ small limit (chunks_of ev).
+    chunks_of ev = cs ++ [last] /\ full limit cs /\ (length last <= limit - 1)%nat /\
+    concat (chunks_of ev) = pend ++ concat appends.
 Proof.
   intros limit appends. induction appends as [|a rest IH]; intros it pend Hl Hinv Hnn.
   - (* endlog *)
@@ -129,17 +135,17 @@ Proof.
     rewrite Hbuf. rewrite buf_write_at by assumption. cbn [bind].
     rewrite map_app. cbn [map]. rewrite <- app_assoc. cbn [app].
     rewrite buf_cstr_pending by assumption. cbn [bind].
-    eexists _, _. split; [reflexivity|]. cbn [it_done lemit fst snd app chunks_of flat_map concat].
-    split; [reflexivity|]. rewrite !app_nil_r. split; [reflexivity|].
-    constructor; [lia | constructor].
+    eexists _, _, [], pend. split; [reflexivity|]. cbn [it_done lemit fst snd app chunks_of flat_map concat].
+    split; [reflexivity|]. split; [reflexivity|]. split; [constructor|]. split; [lia|].
+    rewrite !app_nil_r. reflexivity.
   - inversion Hnn as [|? ? Ha Hrest]; subst.
     destruct (append_bytes_inv limit a it pend Hl Hinv Ha) as (it1 & ev1 & p1 & Hab & Hinv1 & Hd1 & Hc1 & Hs1).
-    destruct (IH it1 p1 Hl Hinv1 Hrest) as (it2 & ev2 & Hr & Hd2 & Hc2 & Hs2).
-    exists it2, (ev1 ++ ev2). split.
+    destruct (IH it1 p1 Hl Hinv1 Hrest) as (it2 & ev2 & cs & last & Hr & Hd2 & Hcs & Hfull & Hlast & Hc2).
+    exists it2, (ev1 ++ ev2), (chunks_of ev1 ++ cs), last. split.
     { unfold appends_ops. cbn [map app run_ops]. rewrite Hab. fold (appends_ops rest). rewrite Hr. reflexivity. }
-    split; [assumption|]. rewrite chunks_of_app, concat_app. split.
-    + rewrite Hc2. cbn [concat]. rewrite app_assoc, Hc1, <- app_assoc. reflexivity.
-    + apply Forall_app. split; assumption.
+    split; [assumption|]. rewrite chunks_of_app. split; [rewrite Hcs, app_assoc; reflexivity|].
+    split; [apply Forall_app; split; assumption|]. split; [assumption|].
+    rewrite concat_app, Hc2. cbn [concat]. rewrite app_assoc, Hc1, <- app_assoc. reflexivity.
 Qed.
 
 Lemma inv_new : forall limit, (1 <= limit)%nat -> inv limit (new_item limit) [].
@@ -150,6 +156,21 @@ Proof.
   - constructor.
 Qed.
 
+(* the chunks are maximal: every chunk but the last has exactly Limit-1 bytes; endlog hands over the rest
+   (possibly empty: an empty message gives exactly one empty chunk) *)
+Theorem logger_chunks_maximal : forall limit appends,
+  (2 <= limit)%nat -> Forall nonul appends ->
+  exists ev cs last,
+    run_logger limit (appends_ops appends) = (EvBegin :: ev ++ [EvFinalize true], Ok tt) /\
+    chunks_of ev = cs ++ [last] /\ full limit cs /\ (length last <= limit - 1)%nat /\
+    concat (chunks_of ev) = concat appends.
+Proof.
+  intros limit appends Hl Hnn.
+  destruct (run_ops_appends limit appends (new_item limit) [] Hl (inv_new limit ltac:(lia)) Hnn)
+    as (it' & ev & cs & last & Hr & Hd & Hcs & Hfull & Hlast & Hc).
+  exists ev, cs, last. unfold run_logger. rewrite Hr. cbn [fst snd]. rewrite Hd. repeat split; assumption.
+Qed.
+
 Theorem logger_chunks : forall limit appends,
   (2 <= limit)%nat -> Forall nonul appends ->
   exists ev,
@@ -158,7 +179,7 @@ Theorem logger_chunks : forall limit appends,
     Forall (fun c => (length c <= limit - 1)%nat) (chunks_of ev).
 Proof.
   intros limit appends Hl Hnn.
-  destruct (run_ops_appends limit appends (new_item limit) [] Hl (inv_new limit ltac:(lia)) Hnn)
-    as (it' & ev & Hr & Hd & Hc & Hs).
-  exists ev. unfold run_logger. rewrite Hr. cbn [fst snd]. rewrite Hd. repeat split; assumption.
+  destruct (logger_chunks_maximal limit appends Hl Hnn) as (ev & cs & last & Hr & Hcs & Hfull & Hlast & Hc).
+  exists ev. split; [assumption|]. split; [assumption|].
+  rewrite Hcs. apply Forall_app. split; [apply full_small; assumption | constructor; [assumption | constructor]].
 Qed.
